@@ -1478,7 +1478,7 @@ fn drive_script(rng: &mut SmallRng, len: usize, nobj: u32, profile: &str, script
     unsafe {
         track::TRACK = true;
     }
-    let strict = profile != "stale" && profile != "elide";
+    let strict = profile != "stale" && profile != "elide" && profile != "consume";
     let strict_adopt = profile != "stale";
     let weak = profile != "core" && profile != "stale";
     let consume = profile == "consume" || profile == "std";
